@@ -110,7 +110,7 @@ impl Prop for Repetition {
             any::<u32>(),
             any::<bool>(),
             1u16..,
-            prop_oneof![4 => Just(0u8), 2 => Just(1u8), 2 => Just(2u8), 5 => Just(3u8)],
+            prop_oneof![4 => Just(0u8), 2 => Just(1u8), 2 => Just(2u8), 5 => Just(3u8), 4 => Just(4u8)],
             0u8..=2,
             any::<u64>(),
             any::<u64>(),
@@ -147,6 +147,24 @@ impl Prop for Repetition {
         let mut recorded_pos: Vec<Pos> = vec![];
         match case.shape {
             1 => recorded_pos = legal.iter().map(|x| x.1.clone()).collect(),
+            4 => {
+                // deeper in the tree: positions two plies below the root (after a mate-preserving move and
+                // a reply), the attacker to move again - the way a real game repeats
+                let mut j = 0;
+                for (_, s, _) in preserving.iter() {
+                    for (_, q) in s.legal() {
+                        if (case.recorded_mask >> (j % 16)) & 1 == 1 && recorded_pos.len() < 4 && key(&q) != key(&pos) {
+                            recorded_pos.push(q);
+                        }
+                        j += 1;
+                    }
+                }
+                if recorded_pos.is_empty() {
+                    if let Some(q) = preserving[0].1.legal().into_iter().map(|x| x.1).find(|q| key(q) != key(&pos)) {
+                        recorded_pos.push(q);
+                    }
+                }
+            }
             _ => {
                 for (i, (_, s, _)) in preserving.iter().enumerate() {
                     if (case.recorded_mask >> (i % 16)) & 1 == 1 {
@@ -260,6 +278,40 @@ impl Prop for Repetition {
         let Some(last) = out.best.last() else {
             return Err(format!("{} reported nothing", what));
         };
+        if case.shape == 4 {
+            // exact values of the game the property defines (3-man graph, recorded positions and the
+            // root are terminal draws): a claimed mate must exist there and the first move must keep it
+            loc.class("recorded_two_plies_below_the_root");
+            let mut g = DrawGame { recorded: &recorded, memo: HashMap::new() };
+            for b in out.best.iter().filter(|b| b.eval >= POS_INF) {
+                let succ = pos.apply(&b.line[0]);
+                let kept = (0..=60u32).step_by(2).any(|k| g.loses(&succ, k));
+                if !kept {
+                    return Err(format!(
+                        "{}: reported the winning terminal evaluation {} with first move {}; with the recorded positions {:?} valued as draws the opponent is not mated after that move whatever the depth (some reply re-enters a recorded position or escapes)",
+                        what, b.eval, b.line[0].lan(), recorded_pos.iter().map(|q| q.fen4()).collect::<Vec<_>>()
+                    ));
+                }
+            }
+            let forced = g.wins(&pos, depth as u32, true);
+            if forced && last.eval < POS_INF {
+                return Err(format!(
+                    "{}: with the recorded positions {:?} as draws the side to move still forces mate within {} plies, but the final evaluation is {}",
+                    what, recorded_pos.iter().map(|q| q.fen4()).collect::<Vec<_>>(), depth, last.eval
+                ));
+            }
+            loc.class(if forced { "mate_still_forced_with_draws" } else { "no_mate_within_depth_with_draws" });
+            // did the history change the answer?
+            let (free, _) = search::run(&pos, &spec, search::new_artifact(case.hasher_seed, geometry), usize::MAX);
+            if let (Some(fb), true) = (free.best.last(), forced) {
+                let fsucc = pos.apply(&fb.line[0]);
+                if !(0..=60u32).step_by(2).any(|k| g.loses(&fsucc, k)) {
+                    loc.class("history_changed_the_answer");
+                    loc.nontrivial(&(pos.fen4(), "ply2", depth, case.workers, case.seed));
+                }
+            }
+            return Ok(());
+        }
         if case.shape == 1 {
             // every line re-enters a recorded position at ply 1: the value must be the draw score
             loc.class("all_successors_recorded");
@@ -309,7 +361,9 @@ pub fn plan(ctx: &Ctx) -> Plan {
                plies and at least two first moves keep the mate; a generated non-empty subset S of the mate-preserving \
                successors is put into the repetition history (cfg hook record_history) leaving at least one preserving \
                move free; companion shapes: every successor of the root recorded (the evaluation must then be exactly the \
-               draw score), the root itself recorded in addition (it must still be searched), and - the way it \
+               draw score), the root itself recorded in addition (it must still be searched), positions TWO plies below the \
+               root recorded (injected; judged against the exact values of the draw-augmented game: a claimed mate's first \
+               move must still mate there, a mate still forced within the depth must be found), and - the way it \
                happens in real use - the recorded successors having been roots of earlier searches (depth 1-4) on the \
                same search memory, which also leaves their table entries behind (three quarters of these cases on a small \
                memory - 3x61, 7x29 or 5x32 buckets, table counts coprime to the bucket counts so that every bucket is reachable - that a further earlier search fills beyond one half). depth n..n+2, seeds, \
